@@ -21,6 +21,7 @@ type GenCfg struct {
 	OddIDs        bool // ids containing ':' or '#'
 	Mutations     bool
 	Subscriptions bool // a Subscription root type (one or two fields, each owned by one service)
+	RootNode      bool // queries may select the Relay entry point node(id:) at the root
 	BigLists      bool
 	RichArgs      bool            // enum, list and input-object arguments
 	FragBase      int             // first number of generated fragment names (several operations in one document)
@@ -587,6 +588,12 @@ func GenOp(r *rand.Rand, w *World, cfg GenCfg, kind string) *Op {
 	for i := 0; i < n && i < len(perm); i++ {
 		og.op.Sel = append(og.op.Sel, og.field(root, td.Order[perm[i]], 1))
 	}
+	if kind == "query" && cfg.RootNode && g.chance(0.7) {
+		og.op.Sel = append(og.op.Sel, og.rootNode())
+		if g.chance(0.25) {
+			og.op.Sel = append(og.op.Sel, og.rootNode())
+		}
+	}
 	if kind == "query" && !cfg.Off["roottypename"] && g.chance(0.1) {
 		og.op.Sel = append(og.op.Sel, &Sel{K: "F", Key: "__typename", Name: "__typename"})
 		og.tag["root-typename"] = true
@@ -625,6 +632,54 @@ func GenOp(r *rand.Rand, w *World, cfg GenCfg, kind string) *Op {
 		og.op.Vars = map[string]ArgVal{}
 	}
 	return og.op
+}
+
+// rootNode selects node(id: ...) { id? __typename? ... on T { fields } } for an entity of the world
+// (sometimes for an id that does not exist, sometimes with a fragment on another type as well).
+func (og *opgen) rootNode() *Sel {
+	g := og.g
+	w := g.w
+	og.tag["rootnode"] = true
+	var ids []string
+	for id := range w.Ents {
+		ids = append(ids, id)
+	}
+	sort.Strings(ids)
+	id := ids[g.pick(len(ids))]
+	ty := w.Ents[id].Type
+	if g.chance(0.1) {
+		id = "no-such-id"
+	}
+	og.alias++
+	s := &Sel{K: "F", Key: fmt.Sprintf("n%d", og.alias), Name: "node", Dirs: []Dir{}, Sub: []*Sel{}, Args: map[string]ArgExpr{}}
+	if g.chance(0.4) && len(og.op.Sel) == 0 {
+		s.Key = "node"
+	}
+	if g.cfg.Off["vars"] || g.chance(0.6) {
+		s.Args["id"] = ArgExpr{"t": "lit", "v": ArgVal{"t": "s", "v": id}}
+	} else {
+		name := fmt.Sprintf("nid%d", og.alias)
+		og.op.VarDefs[name] = &VarDef{Type: TypeRef{Name: "ID", NN: true}}
+		og.op.VarOrd = append(og.op.VarOrd, name)
+		og.op.Vars[name] = ArgVal{"t": "s", "v": id}
+		s.Args["id"] = ArgExpr{"t": "var", "n": name}
+	}
+	if g.chance(0.5) {
+		s.Sub = append(s.Sub, &Sel{K: "F", Key: "id", Name: "id", Dirs: []Dir{}, Sub: []*Sel{}})
+	}
+	if g.chance(0.3) {
+		s.Sub = append(s.Sub, &Sel{K: "F", Key: "__typename", Name: "__typename", Dirs: []Dir{}, Sub: []*Sel{}})
+	}
+	s.Sub = append(s.Sub, &Sel{K: "I", On: ty, Dirs: []Dir{}, Sub: og.selset(ty, 2)})
+	if g.chance(0.3) {
+		for _, other := range nodeNames {
+			if td := w.Types[other]; td != nil && td.Node && other != ty {
+				s.Sub = append(s.Sub, &Sel{K: "I", On: other, Dirs: []Dir{}, Sub: og.selset(other, 3)})
+				break
+			}
+		}
+	}
+	return s
 }
 
 func (og *opgen) newVar(ty TypeRef, argDef ArgVal) ArgExpr {
